@@ -35,6 +35,7 @@ QUICK = [
     _c('window_storage', 'contract_storage', dict(T=4, win_s=(1, 3), win_c=(0, 3))),
     _c('reverse_transport_costs', 'slp_transport', dict(T=3, reverse=True)),
     _c('forward_transport_cost_series', 'slp_transport', dict(T=3)),
+    _c('multicommodity_three_nodes_take', 'multicommodity', dict(T=2, factors=(1.0, 0.5, 2.0), take=(0, 2))),
     _c('window_last_step_only', 'contract_storage', dict(T=4, win_s=(3, 4), win_c=(0, 1))),
     _c('window_between_grid_points', 'contract_storage', dict(T=4, win_s=(0.5, 2.5), win_c=(1, 3.25), wacc=True)),
     _c('caps_interval_data', 'caps_dict', dict(T=4, wacc=True)),
